@@ -213,6 +213,9 @@ class Check:
                 if n_now == 0 and not violations and not self.errors:
                     self.errors.append("vacuity guard: {} generated {} obligations on the pinned tree and none now".format(key, n_lock))
             cov["lock_checked"] = len(lock)
+        # stability monitor: the slowest queries of this run (budget: 20 s z3 + 30 s cvc5 per query)
+        cov["slowest_obligations"] = [dict(name=o.name[:160], seconds=round(o.seconds, 2), backend=o.backend)
+                                      for o in sorted(n_proved, key=lambda o: -o.seconds)[:5] if o.seconds > 0]
         cov.update(self.extra)
         # exploration-style keys (measured): bounded evaluations + obligations
         ev = sum(b["evaluations"] for b in self.bounded.values())
